@@ -239,3 +239,50 @@ Definition verdict_blocks (c : bcase) : list nat :=
   tag (match b_params c with
        | Some _ => list_eqb rvdist_eqb (rvs_from_blocks (b_is_eps c) (b_blocks c)) (b_rvs c)
        | None => true end) 72.
+
+(* ------------------------------------------------------------------------------------------ *)
+(* numeric forms of $OMEGA/$SIGMA records: one case per record (BLOCK) or per DIAGONAL item.
+     81 the inits returned by the real OmegaRecord.parse() differ from the model (omega_block_parse /
+        diag_item_parse with the exact square root)                                  [correspondence]
+     82 they differ from NONMEM's definition of the form (nm_cov on the full symmetric matrix)  [oracle]
+     83 the initial values of the parameters of the model that was read differ from parse()'s
+     1081 a square root of a non-square was needed (sample not exact: nothing is concluded) *)
+Record ocase := mkOCase {
+  o_diag : bool; o_size : nat; o_sd : bool; o_corr : bool; o_chol : bool;
+  o_vals : list Q;                 (* the values as written *)
+  o_obs : ores;                    (* inits of the parsed block, or the error class *)
+  o_par : option (list Q)          (* inits of the corresponding Parameters of the model, when it was read *)
+}.
+Definition ores_eqb (a b : ores) : bool :=
+  match a, b with
+  | OOk x, OOk y => list_eqb Qeq_bool x y
+  | OSyntaxError, OSyntaxError | OInternalError, OInternalError => true
+  | _, _ => false
+  end.
+Definition model_omega (c : ocase) : ores :=
+  if o_diag c then OOk (map (diag_item_parse (o_sd c)) (o_vals c))
+  else omega_block_parse sqrt_exact (o_size c) (o_sd c) (o_corr c) (o_chol c) (o_vals c).
+(* NONMEM: a BLOCK(n) record needs n(n+1)/2 values, anything else is refused *)
+Definition spec_omega (c : ocase) : option (list Q) :=
+  if o_diag c then Some (map (fun v => if o_sd c then (v * v)%Q else v) (o_vals c))
+  else if Nat.eqb (o_size c * (o_size c + 1) / 2) (length (o_vals c)) then
+    let rows := unflatten 0 (o_size c) (o_vals c) in
+    Some (concat (tri_build (o_size c)
+                    (nm_cov sqrt_exact (form_of_flags (o_sd c) (o_corr c) (o_chol c)) (o_size c) (sym_of rows))))
+  else None.
+Definition spec_agrees (s : option (list Q)) (o : ores) : bool :=
+  match s, o with
+  | Some x, OOk y => list_eqb Qeq_bool x y
+  | None, OSyntaxError | None, OInternalError => true
+  | _, _ => false
+  end.
+Definition sqrt_exact_ok (c : ocase) : bool :=
+  if o_diag c || o_chol c || o_sd c || negb (o_corr c) then true
+  else let rows := unflatten 0 (o_size c) (o_vals c) in
+       forallb (fun i => match q_sqrt (tget rows i i) with Some _ => true | None => false end) (seq 0 (o_size c)).
+Definition verdict_oform (c : ocase) : list nat :=
+  if sqrt_exact_ok c then
+    tag (ores_eqb (model_omega c) (o_obs c)) 81 ++
+    tag (spec_agrees (spec_omega c) (o_obs c)) 82 ++
+    tag (match o_par c with Some p => ores_eqb (OOk p) (o_obs c) | None => true end) 83
+  else [1081].
